@@ -30,6 +30,36 @@ type stackEnv struct {
 	inflight  atomic.Int64
 	curOp     atomic.Int64 // number of the client-side call being executed
 	subPrefix string       // set when the stack contains sub(...): names underneath carry this prefix
+	minChunk  int          // chunk size the registry underneath advertises (0: ocimem's 8 KiB)
+}
+
+// smallChunks wraps a registry so that its upload writers report a small ChunkSize.
+type smallChunks struct {
+	ociregistry.Interface
+	k int
+}
+
+type smallWriter struct {
+	ociregistry.BlobWriter
+	k int
+}
+
+func (w smallWriter) ChunkSize() int { return w.k }
+
+func (s *smallChunks) PushBlobChunked(ctx context.Context, repo string, chunkSize int) (ociregistry.BlobWriter, error) {
+	w, err := s.Interface.PushBlobChunked(ctx, repo, chunkSize)
+	if err != nil {
+		return nil, err
+	}
+	return smallWriter{w, s.k}, nil
+}
+
+func (s *smallChunks) PushBlobChunkedResume(ctx context.Context, repo, id string, offset int64, chunkSize int) (ociregistry.BlobWriter, error) {
+	w, err := s.Interface.PushBlobChunkedResume(ctx, repo, id, offset, chunkSize)
+	if err != nil {
+		return nil, err
+	}
+	return smallWriter{w, s.k}, nil
 }
 
 type opTagKey struct{}
@@ -166,6 +196,13 @@ func (env *stackEnv) build(s string) (ociregistry.Interface, string, error) {
 		return ocidebug.New(args[0], func(string, ...any) {}), rest, nil
 	case "select":
 		return ocifilter.Select(args[0], func(string) bool { return true }), rest, nil
+	case "small":
+		// the registry underneath advertises a tiny minimum chunk size, so that a client's
+		// byte-sized chunk hints take effect
+		k := 1
+		fmt.Sscanf(opts, "%d", &k)
+		env.minChunk = k
+		return &smallChunks{Interface: args[0], k: k}, rest, nil
 	case "sub":
 		env.subPrefix = "pfx/sub"
 		return ocifilter.Sub(args[0], env.subPrefix), rest, nil
